@@ -218,6 +218,87 @@ pub fn families() -> Vec<Box<dyn Family>> {
             },
         ),
         family(
+            "slice_items",
+            "line diffs built from PRE-SPLIT items (TextDiff::configure().diff_slices / from_slices): items drawn from a pool with the empty string, unterminated lines (as str::lines() yields them), terminated lines, items with an EMBEDDED line break and no final one, whitespace-only items; old/new = edited copies so that Replace blocks of several items arise x 3 algorithms x newline_terminated {default, true, false} x inline deadline {None, expired, fuel}",
+            false,
+            8,
+            |cfg| cfg.n(8_000, 160_000),
+            |idx, cfg, out| {
+                let mut rng = Rng::for_case(cfg.seed, "c16.slice_items", idx);
+                const POOL: [&str; 18] = [
+                    "", "", "let x = 1;", "let y = 2;", "let x = 12;", "fn main() {", "}", "    ", "a b c", "a b d", "a b c\n", "a b d\n", "soft wrapped\nrecord tail", "soft wrapped\nrecord end", "x\r\ny z", "\n", "w1 w2 w3 w4", "w1 w2 w9 w4",
+                ];
+                let n = 1 + rng.below(if cfg.tiny { 3 } else { 7 });
+                let a: Vec<&str> = (0..n).map(|_| *rng.pick(&POOL)).collect();
+                let mut b: Vec<&str> = a.clone();
+                for _ in 0..1 + rng.below(3) {
+                    let i = rng.below(b.len().max(1));
+                    match rng.below(4) {
+                        0 if !b.is_empty() => {
+                            let j = i.min(b.len() - 1);
+                            b[j] = *rng.pick(&POOL);
+                        }
+                        1 if b.len() > 1 => {
+                            b.remove(i.min(b.len() - 1));
+                        }
+                        2 => b.insert(i.min(b.len()), *rng.pick(&POOL)),
+                        _ if !b.is_empty() => {
+                            // a near-identical item: last word changed
+                            let j = i.min(b.len() - 1);
+                            b[j] = match b[j] {
+                                "a b c" => "a b d",
+                                "a b c\n" => "a b d\n",
+                                "let x = 1;" => "let x = 12;",
+                                "w1 w2 w3 w4" => "w1 w2 w9 w4",
+                                "soft wrapped\nrecord tail" => "soft wrapped\nrecord end",
+                                other => other,
+                            };
+                        }
+                        _ => {}
+                    }
+                }
+                let alg = ALGS[rng.below(3)];
+                out.sample(|| format!("alg={} old items={:?} new items={:?}", alg_name(alg), a, b));
+                let far = far_deadline();
+                for nl_override in 0..3u8 {
+                    for dl in [Dl::NoneGiven, Dl::Expired, Dl::Fuel(rng.below(3) as u64)] {
+                        out.eval();
+                        let r = guard(|| {
+                            let mut c = TextDiff::configure();
+                            c.algorithm(alg);
+                            match nl_override {
+                                1 => {
+                                    c.newline_terminated(true);
+                                }
+                                2 => {
+                                    c.newline_terminated(false);
+                                }
+                                _ => {}
+                            }
+                            let d = c.diff_slices(&a, &b);
+                            check(&d, dl, far, false)
+                        });
+                        vh::set_clock(vh::Clock::Off);
+                        let ctx = || format!("alg={} TextDiff over pre-split items (diff_slices) inline deadline={:?} newline_terminated override={} old items={:?} new items={:?}", alg_name(alg), dl, ["none", "true", "false"][nl_override as usize], a, b);
+                        match r {
+                            Err(p) => out.violation("panic", format!("inline expansion panicked: {} | {}", p, ctx())),
+                            Ok((fails, counts)) => {
+                                out.count_n("emphasised_segments_observed", counts.emphasised);
+                                out.count_n("replace_ops_observed", counts.replace_ops);
+                                out.count_n("inline_changes_observed", counts.inline_changes);
+                                if counts.emphasised > 0 {
+                                    out.nontrivial(&(alg_name(alg), &a, &b, nl_override));
+                                }
+                                for (code, msg) in fails.into_iter().take(4) {
+                                    out.violation(code, format!("{} | {}", msg, ctx()));
+                                }
+                            }
+                        }
+                    }
+                }
+            },
+        ),
+        family(
             "long_lines",
             "a changed line with MANY word tokens: both sides have a line with exactly t tokens for t around 255 / 256 / 999 / 1000 / 1001 / 1023 / 1024 / 2048 / 4096 (words separated by single blanks, so t = 2*words - 1 + terminator), one or two words changed, terminators differing between the sides in half of the cases; plus (every 10th case) a line with 70000 distinct words and one changed x {str,[u8]} x 3 inline deadlines",
             false,
